@@ -67,6 +67,9 @@ def one_run(b, d, opts, pert, epoch=True):
             os.remove(os.path.join(d, f))
         except OSError:
             pass
+        if pert["kind"] == "stale":
+            # an earlier run left a longer file under the same name: it must not show through
+            open(os.path.join(d, f), "w").write("/* stale output of an earlier, bigger run */\n" * pert.get("n", 4000))
     env = {"SOURCE_DATE_EPOCH": "1000000" if epoch else None}
     preload = None
     prefix = []
@@ -128,7 +131,7 @@ def run_case(ctx, case):
         libgen.write_files(d, case["files"])
     else:
         libgen.generate(random.Random(case["libseed"]), "liba", size=case.get("size", 1.0), ordering=True,
-                        n_classes=4, ext=True).write(d)
+                        n_classes=4, ext=True, opaque=True).write(d)
     opts = BACKENDS[case["backend"]]
     base = one_run(b, d, opts, dict(kind="none"))
     if base["_rc"] != 0 or base["oc"] is None:
@@ -197,7 +200,8 @@ def main(chk):
         libseed = rng.randrange(1 << 30)
         for be in (["c", "native", "python"] if chk.quick() else ["c", "python", "native", "all3"]):
             cid += 1
-            perts = [dict(kind="aslr-off"), dict(kind="env", n=rng.choice([1000, 30000, 100000])), dict(kind="locale"),
+            perts = [dict(kind="aslr-off"), dict(kind="rerun"), dict(kind="rerun"), dict(kind="stale", n=rng.choice([3000, 6000])),
+                     dict(kind="env", n=rng.choice([1000, 30000, 100000])), dict(kind="locale"),
                      dict(kind="tz", tz=rng.choice(["Asia/Tokyo", "America/New_York", "UTC+5"])),
                      dict(kind="time", t=rng.randrange(10 ** 9, 2 * 10 ** 9))]
             perts += [dict(kind="heap", seed=rng.randrange(1, 1 << 30)) for _ in range(nheap)]
